@@ -24,14 +24,17 @@ type Config struct {
 	Params       map[string]int64
 	Deadline     time.Time
 	Trace        bool
+	CSolver      string // solver for the concurrency query (z3 | z3new | cvc5)
+	CTimeoutS    int
 }
 
 type decision struct {
 	choice   bool
 	alt      bool   // other side still to explore
 	altModel *Model // model for pc ∧ other side
-	kind     byte   // 'b' branch, 'a' assert/assume (no alternative), 'c' concretize (val)
+	kind     byte   // 'b' branch, 'a' assert/assume (no alternative), 'c' concretize (val), 'n' enumeration
 	val      uint64
+	nAlt     int
 }
 
 // Violation is a failed assertion with the model that falsifies it.
@@ -76,6 +79,7 @@ type Exec struct {
 	globals       map[*ssa.Global]Ptr
 	runtimeErrorT types.Type
 	rtypeT        types.Type
+	cm            *CMode
 	implCache     map[implKey]bool
 
 	// init
